@@ -11,7 +11,7 @@ from lib import Case
 
 PROP = "C12"
 DRIVER = "drv-c12"
-PROOF_MODULES = ["TetlProofs.C12.Props"]
+PROOF_MODULES = ["TetlProofs.C12.Props", "TetlProofs.C12.PropsExt"]
 HARNESS = "harness/c12.cpp"
 HARNESS_FLAGS = ["-g0", "-Wno-unused-function"]
 SOURCES = ["include/etl/_chrono/duration.hpp", "include/etl/_chrono/duration_cast.hpp", "include/etl/_chrono/floor.hpp",
@@ -24,7 +24,13 @@ RULE = ("integer representations (int64 x int64): every ordered pair of the ten 
         "count in [-2000, 2000] against a fixed and seeded set of second counts; plus counts 2^31 + k, -2^31 + k, 2^62 + k, "
         "-2^62 + k, int64 min/max - k (|k| <= 3) and seeded random 20..62-bit counts, restricted to the cases whose intermediate "
         "products and exact result are representable (the same predicate as the hypotheses of the Lean theorems, evaluated with "
-        "exact Python integers); int32 and mixed int32/int64 representations for the periods {milli, 60, 1001/30000}; two "
+        "exact Python integers; floor / ceil: c * CF::num in intmax_t, the argument in the common type of the comparison, the exact "
+        "result - the hypotheses of floor_eq_of_result / ceil_eq_of_result); int32 and mixed int32/int64 representations for the "
+        "periods {milli, 60, 1001/30000}; int16 x int16, uint32 x uint32, int64 -> int16, uint32 x int32 on the same periods "
+        "(all of int16's and uint32's boundary values, every function incl. the one-type operations on all twelve periods); "
+        "single evaluations of the two known-finding classes (c * CF::num outside intmax_t with a representable result: the "
+        "harness process ends with a UBSan report; floor / ceil / round on int32 x int32 around the count where the argument "
+        "leaves the 32-bit common type, std column masked); two "
         "periods that are not in lowest terms (ratio<10,14>, ratio<-1001,-30000>).  Floating point (double x double on all "
         "100 pairs; int64 x double and double x int64 on 9 pairs): counts k/8 for k in [-2000, 2000] (every half is a tie) "
         "and seeded random magnitudes, compared bit for bit.  time_point: the same functions through "
@@ -37,7 +43,11 @@ RULE = ("integer representations (int64 x int64): every ordered pair of the ten 
         "A line is non-trivial when its expected results are not all equal; distinct = distinct line text.")
 ASSUMPTIONS = ["std::chrono of libstdc++ 12 is the reference for spec validation (R2); the Lean spec (exact core `Rat` arithmetic) "
                "is the primary oracle and replaces the __int128 arithmetic of the design",
-               "a representation is modelled as (width, signed) for int32/int64; narrower or unsigned representations are not explored",
+               "a representation is modelled as (width, signed); explored: int16, int32, int64, uint32 (int8, uint8, uint16 only in the "
+               "theorems; uint64 nowhere: its CR is uint64 and the cast arithmetic modular)",
+               "on the inputs of finding F-C12-rounding-compare-narrow-common-type libstdc++ 12 returns the same off-by-one value as "
+               "tetl; the reference there is the Returns clause of [time.duration.cast] (floor: greatest t <= d), so the std column "
+               "is masked (`ns=1`) on exactly those lines",
                "floating-point representations: IEEE-754 binary64 on both sides (Lean `Float`, x86-64 SSE2 double), no theorem",
                "ratio / ratio_multiply / ratio_divide / common_type are compile-time constants: an overflow there is a compile error, modelled as an error value"]
 TRUSTED = ["hand model Tetl/C12/Model.lean (incl. the four duration_cast_impl::cast bodies, modelled by hand) tied to the source by the "
@@ -52,7 +62,9 @@ UNPROVED_OBSERVED = ["durations with a floating-point representation (FModel): c
 PER = [(1, 10 ** 9), (1, 10 ** 6), (1, 1000), (1, 1), (60, 1), (3600, 1), (86400, 1), (1, 3), (5, 7), (1001, 30000),
        (10, 14), (-1001, -30000)]
 PQ = [Fraction(n, d) for n, d in PER]
-W = {"i32": 32, "i64": 64}
+REPS = {"i16": (16, True), "i32": (32, True), "i64": (64, True), "u32": (32, False)}      # (width, signed)
+I64 = (64, True)
+NARROW = (("i16", "i16"), ("u32", "u32"), ("i64", "i16"), ("u32", "i32"))                # harness rc 7..10
 SUB = (2, 4, 9)
 TPSET = (0, 2, 3, 4, 7, 9)
 CHUNK = 64
@@ -64,6 +76,8 @@ def alias_pair(a, b):
 
 def enabled(r1, r2, k1, k2):
     """the combinations instantiated by harness/c12.cpp (same predicate there)"""
+    if (r1, r2) in NARROW:
+        return k1 in SUB and k2 in SUB
     full = (r1, r2) in (("i64", "i64"), ("f64", "f64"))
     if k1 < 10 and k2 < 10:
         return True if full else (k1 in SUB and k2 in SUB)
@@ -71,6 +85,8 @@ def enabled(r1, r2, k1, k2):
 
 
 def tp_enabled(r1, r2, k1, k2):
+    if (r1, r2) in NARROW:
+        return False
     if (r1, r2) == ("i64", "i64"):
         return (k1 in TPSET and k2 in TPSET) or k1 >= 10 or k2 >= 10
     if (r1, r2) == ("f64", "f64") or "f64" not in (r1, r2):
@@ -81,8 +97,36 @@ def tp_enabled(r1, r2, k1, k2):
 # ---------------------------------------------------------------- exact reference / domain predicates (integers)
 # These are the decidable hypotheses of the theorems in TetlProofs/C12/Props.lean, evaluated with Python integers.
 
-def fits(w, x):
-    return -(1 << (w - 1)) <= x <= (1 << (w - 1)) - 1
+def rmin(t):
+    return -(1 << (t[0] - 1)) if t[1] else 0
+
+
+def rmax(t):
+    return (1 << (t[0] - 1)) - 1 if t[1] else (1 << t[0]) - 1
+
+
+def fits(t, x):
+    """x is a value of the integer type t = (width, signed) (an int t means the signed type of that width)"""
+    if isinstance(t, int):
+        t = (t, True)
+    return rmin(t) <= x <= rmax(t)
+
+
+def promote(t):
+    return (32, True) if t[0] < 32 else t
+
+
+def usual(a, b):
+    a, b = promote(a), promote(b)
+    if a[1] == b[1]:
+        return a if a[0] >= b[0] else b
+    sg, un = (a, b) if a[1] else (b, a)
+    return un if un[0] >= sg[0] else sg
+
+
+def common(a, b):
+    """common_type_t<A, B> (ITy.common of the Lean model)"""
+    return a if a == b else usual(a, b)
 
 
 def tdiv(a, b):
@@ -106,22 +150,68 @@ I64MIN, I64MAX = -(1 << 63), (1 << 63) - 1
 
 def cast_ok(r1, k1, r2, k2, a):
     n, d = CF[k1][k2]
-    if not fits(W[r1], a) or not (I64MIN <= a * n <= I64MAX):
+    if not fits(REPS[r1], a) or not (I64MIN <= a * n <= I64MAX):
         return None
     t = tdiv(a * n, d)
-    return t if fits(W[r2], t) else None
+    return t if fits(REPS[r2], t) else None
 
 
 def both_common(r1, k1, r2, k2, a, b):
     """both counts in the common type, None if an intermediate is not representable"""
-    w = max(W[r1], W[r2])
-    if not fits(W[r1], a) or not fits(W[r2], b):
+    w = common(REPS[r1], REPS[r2])
+    if not fits(REPS[r1], a) or not fits(REPS[r2], b):
         return None
     m1, m2 = CM[k1][k2]
     x, y = a * m1, b * m2
     if not (I64MIN <= x <= I64MAX and I64MIN <= y <= I64MAX and fits(w, x) and fits(w, y)):
         return None
     return w, x, y
+
+
+def exact_result(op, k1, k2, a):
+    n, d = CF[k1][k2]
+    if op == "cast":
+        return tdiv(a * n, d)
+    if op == "floor":
+        return (a * n) // d
+    if op == "ceil":
+        return -((-a * n) // d)
+    if op == "round":
+        lo = (a * n) // d
+        r2 = 2 * (a * n - lo * d)
+        return lo if r2 < d else lo + 1 if r2 > d else lo if lo % 2 == 0 else lo + 1
+    raise ValueError(op)
+
+
+def rounding_ok(op, r1, k1, r2, k2, a):
+    n, d = CF[k1][k2]
+    if not fits(REPS[r1], a) or not fits(I64, a * n):
+        return False
+    m1 = CM[k1][k2][0]
+    if not (fits(I64, a * m1) and fits(common(REPS[r1], REPS[r2]), a * m1)):
+        return False
+    return fits(REPS[r2], exact_result(op, k1, k2, a))
+
+
+def finding_class(op, r1, k1, r2, k2, a):
+    """The two known findings, recomputed from the evaluation itself (same predicates as the hypotheses that the Lean
+    counterexamples violate): the exact result is representable, but
+      * c * CF::num is not a value of intmax_t (durationCast_overflow / durationCast_intermediate_counterexample), or
+      * (floor / ceil / round) the argument converted to the common type of the comparison is not a value of its
+        representation (floor_narrow_common_counterexample)."""
+    op = op[3:] if op.startswith("tp_") else op
+    if op not in ("cast", "floor", "ceil", "round") or r1 not in REPS or r2 not in REPS:
+        return None
+    if not fits(REPS[r1], a) or not fits(REPS[r2], exact_result(op, k1, k2, a)):
+        return None
+    n, d = CF[k1][k2]
+    if not fits(I64, a * n):
+        return "F-C12-cast-intermediate-overflow"
+    if op != "cast":
+        m1 = CM[k1][k2][0]
+        if not fits(common(REPS[r1], REPS[r2]), a * m1):
+            return "F-C12-rounding-compare-narrow-common-type"
+    return None
 
 
 def dom2(op, r1, k1, r2, k2, a, b=0):
@@ -131,33 +221,35 @@ def dom2(op, r1, k1, r2, k2, a, b=0):
     op = op[3:] if op.startswith("tp_") else op
     if op == "cast":
         return cast_ok(r1, k1, r2, k2, a) is not None
-    if op in ("floor", "ceil", "round"):
+    if op in ("floor", "ceil"):
+        # floor_eq_of_result / ceil_eq_of_result: the two products the code forms (c * CF::num in intmax_t, the argument in the
+        # common type of the comparison) and the exact result; int16 / uint32: the same predicate, no theorem
+        return rounding_ok(op, r1, k1, r2, k2, a)
+    if op == "round":
         t = cast_ok(r1, k1, r2, k2, a)
         if t is None:
             return False
-        # the comparison t > d / t < d converts both to the common type of (To, From)
-        if both_common(r1, k1, r2, k2, a, t) is None or not fits(W[r2], t - 1) or not fits(W[r2], t + 1):
+        # the comparison t > d converts both to the common type of (From, To)
+        if both_common(r1, k1, r2, k2, a, t) is None or not fits(REPS[r2], t - 1) or not fits(REPS[r2], t + 1):
             return False
-        if op != "round":
-            return True
         n, d = CF[k1][k2]
         low = (a * n) // d
         for v in (low, low + 1):
             c = both_common(r1, k1, r2, k2, a, v)
             if c is None or not fits(c[0], c[1] - c[2]) or not fits(c[0], c[2] - c[1]):
                 return False
-        return fits(W[r2], low + 2)
+        return fits(REPS[r2], low + 2)
     if op in ("add", "sub", "plus", "minus", "diff"):
         c = both_common(r1, k1, r2, k2, a, b)
         return c is not None and fits(c[0], c[1] + c[2]) and fits(c[0], c[1] - c[2])
     if op in ("div", "mod"):
         c = both_common(r1, k1, r2, k2, a, b)
-        return c is not None and c[2] != 0 and not (c[1] == -(1 << (c[0] - 1)) and c[2] == -1)
+        return c is not None and c[2] != 0 and not (c[1] == rmin(c[0]) and c[2] == -1)
     if op in ("cmp", "common"):
         return both_common(r1, k1, r2, k2, a, b) is not None
     if op == "conv":
         if CF[k1][k2][1] != 1:
-            return fits(W[r1], a)               # not convertible: `n/a` on all sides
+            return fits(REPS[r1], a)            # not convertible: `n/a` on all sides
         return cast_ok(r1, k1, r2, k2, a) is not None
     if op == "ctype":
         return True
@@ -165,19 +257,19 @@ def dom2(op, r1, k1, r2, k2, a, b=0):
 
 
 def dom1(op, r, a, b, rs=None):
-    w = W[r]
+    w = REPS[r]
     op = op[3:] if op.startswith("tp_") else op
     if not fits(w, a):
         return False
     if op in ("mul", "divr", "modr"):
         # duration<r> op scalar of type rs: evaluated in common_type_t<r, rs> (MulIn / DivIn of Props.lean)
-        ws = W[rs or r]
-        wc = max(w, ws)
-        if not fits(ws, b):
-            return False
+        ws = REPS[rs or r]
+        wc = common(w, ws)
+        if not fits(ws, b) or not fits(wc, b) or not fits(wc, a):
+            return False               # (a negative scalar with an unsigned common type is converted modulo 2^32: outside)
         if op == "mul":
             return fits(wc, a * b)
-        return b != 0 and not (a == -(1 << (wc - 1)) and b == -1)
+        return b != 0 and not (a == rmin(wc) and b == -1)
     if op in ("abs", "neg"):
         return fits(w, -a)
     if op == "pos":
@@ -189,7 +281,7 @@ def dom1(op, r, a, b, rs=None):
     if op == "mula":
         return fits(w, b) and fits(w, a * b)
     if op in ("diva", "moda", "modad"):
-        return fits(w, b) and b != 0 and not (a == -(1 << (w - 1)) and b == -1)
+        return fits(w, b) and b != 0 and not (a == rmin(w) and b == -1)
     if op == "limits":
         return True
     raise ValueError(op)
@@ -299,7 +391,57 @@ def generate(tier, seed):
                         emit(op, r1, k1, r2, k2, ring + a_big, b)
                 add("ctype r1=%s p1=%d r2=%s p2=%d a=0" % (r1, k1, r2, k2), "ctype/%s,%s" % (r1, r2))
 
+    # ---- representations narrower than int and unsigned ones: int16 x int16, uint32 x uint32, int64 -> int16, uint32 x int32
+    # (cast / converting constructor / unary minus / compound assignments: theorems on `builtinReps`; the rest differential)
+    nvals = {"i16": sorted(set(range(-130, 131)) | {32767 - k for k in range(4)} | {-32768 + k for k in range(4)}
+                           | {s_ * rnd.getrandbits(rnd.randint(8, 15)) for s_ in (1, -1) for _ in range(20)}),
+             "u32": sorted(set(range(0, 261)) | {(1 << 32) - 1 - k for k in range(4)} | {(1 << 31) + k for k in range(-3, 4)}
+                           | {rnd.getrandbits(rnd.randint(9, 32)) for _ in range(30)}),
+             "i32": ring + i32big, "i64": ring + big}
+    for (r1, r2) in NARROW:
+        for k1 in SUB:
+            for k2 in SUB:
+                for op in OPS_CAST + ["conv"]:
+                    emit(op, r1, k1, r2, k2, nvals[r1])
+                for op in OPS_BIN:
+                    for b in [1, 3] + ([-7, -1] if REPS[r2][1] else [7]) + [rnd.choice(nvals[r2])]:
+                        emit(op, r1, k1, r2, k2, nvals[r1], b)
+                add("ctype r1=%s p1=%d r2=%s p2=%d a=0" % (r1, k1, r2, k2), "ctype/%s,%s" % (r1, r2))
+
+    # ---- the two known findings: the exact result is representable, an intermediate of the code is not (single evaluations;
+    # every line of the first class ends the harness process with a UBSan report, so there are few of them)
+    for (k1, k2) in ((8, 7), (9, 8), (7, 9)):
+        n, d = CF[k1][k2]
+        assert n != 1 and d != 1
+        for a in (I64MAX // n + 1, -(I64MAX // n) - 2):
+            for op in ("cast", "floor") if k1 == 8 else ("cast",):
+                assert finding_class(op, "i64", k1, "i64", k2, a) == "F-C12-cast-intermediate-overflow"
+                add("%s r1=i64 p1=%d r2=i64 p2=%d a=%d" % (op, k1, k2, a), op + "/i64,i64/finding")
+    add("cast r1=i64 p1=8 r2=i64 p2=7 a=%d" % (1 << 60), "cast/i64,i64/finding")
+    add("round r1=i64 p1=8 r2=i64 p2=7 a=%d" % -(1 << 60), "round/i64,i64/finding")
+    for (k1, k2) in ((2, 9), (9, 2), (4, 9), (9, 4)):
+        m1 = CM[k1][k2][0]
+        for base in ((1 << 31) // m1, -((1 << 31) // m1)):
+            vs = [a for a in range(base - 3, base + 4) if finding_class("floor", "i32", k1, "i32", k2, a)
+                  == "F-C12-rounding-compare-narrow-common-type"]
+            for op in ("floor", "ceil", "round"):
+                for a in (vs[:1] if op == "round" else vs):       # round: the differences overflow int32 as well (UBSan abort)
+                    if finding_class(op, "i32", k1, "i32", k2, a) == "F-C12-rounding-compare-narrow-common-type":
+                        add("%s r1=i32 p1=%d r2=i32 p2=%d a=%d ns=1" % (op, k1, k2, a), op + "/i32,i32/finding")
+
     # ---- one-type operations
+    for r1 in ("i16", "u32"):
+        for k1 in (range(12) if thorough else (2, 4, 9, 10)):      # (these operations do not look at the period)
+            for op in OPS_ONE:
+                if op == "abs" and not REPS[r1][1]:
+                    continue                     # abs participates only for a signed representation
+                for b in ([0] if op in ("abs", "neg", "pos", "inc", "dec", "tp_inc") else [1, 3, 7, rnd.choice(nvals[r1])] + ([-7, -1] if REPS[r1][1] else [])):
+                    emit(op, r1, k1, None, None, nvals[r1], b)
+            for rs in ("i32", "i64"):
+                for op in OPS_SCALAR:
+                    for b in [-7, -1, 3, rnd.choice(i32big if rs == "i32" else big)]:
+                        emit(op, r1, k1, None, None, nvals[r1], b, rs=rs)
+            add("limits r1=%s p1=%d a=0" % (r1, k1), "limits/" + r1)
     for r1 in ("i32", "i64"):
         a_big = i32big if r1 == "i32" else big
         for k1 in range(12):
@@ -348,9 +490,24 @@ def nontrivial(case, rows):
 
 
 def classify(case, k, row):
-    """no known finding is open: every impl != spec is a violation (in particular `missing`, which the harness prints when
-    one of the free functions of [time.duration.nonmember] / [time.point.nonmember] is not declared)"""
-    return None
+    """The finding id of a failing single evaluation, recomputed from the case line (op, types, count) with `finding_class` —
+    never taken from the tag.  A list line is never classified (the generator puts no element of a finding class into a
+    list: they are outside `dom2`), so every other impl != spec is a violation (in particular `missing`, which the harness
+    prints when one of the free functions of [time.duration.nonmember] / [time.point.nonmember] is not declared)."""
+    kv = dict(t.split("=", 1) for t in case.lines[k].split(" ")[1:] if "=" in t)
+    op = case.lines[k].split(" ")[0]
+    if "r2" not in kv:
+        return None
+    if "a" in kv:
+        a = int(kv["a"])
+    elif "as" in kv and "," not in kv["as"]:
+        a = int(kv["as"][1:-1])
+    else:
+        return None
+    try:
+        return finding_class(op, kv["r1"], int(kv["p1"]), kv["r2"], int(kv["p2"]), a)
+    except (KeyError, ValueError):
+        return None
 
 
 def group_of(case):
@@ -465,62 +622,87 @@ def run(ctx, replay=None):
 
 CLAIMED = True
 TECHNIQUE = ("Lean 4 proof: hand model of ratio / ratio_divide / common_type / the four duration_cast bodies / converting "
-             "constructor / operators (incl. duration and tick count, time_point and duration) / floor / ceil / round / abs "
+             "constructor / operators (incl. duration and tick count, time_point and duration) / floor / ceil / round / abs / "
+             "the time_point members and casts / zero, min, max / the named aliases "
              "(C++ integer types, overflow = error) = exact rational (Q) "
              "semantics for all periods and counts in the documented domain; model tied to the code by an exhaustive-box + "
              "boundary + seeded correspondence run against the implementation and libstdc++")
-LEVEL_TEXT = ("duration_cast (all four duration_cast_impl bodies), the conversion to the common type (the converting constructor and "
-              "common_type = gcd of numerators / lcm of denominators), == != < <= > >=, + and - of two durations, floor, ceil, "
-              "round (nearest, ties to even), abs, unary minus and plus, the converting constructors of duration and time_point, the compound assignments += -= *= /= %= (also as used by time_point), "
-              "duration / duration and duration % duration, duration * rep, rep * duration, duration / rep, duration % rep, "
-              "time_point + duration, duration + time_point, time_point - duration and time_point - time_point are proved in Lean 4 — for every pair of periods with positive numerator and denominator, every signed 32..64-bit "
-              "representation and every tick count for which the intermediate products and the exact result are representable — "
-              "to return (never an error: no signed overflow, no division by zero, no constructor dropped from overload "
-              "resolution) exactly the value that exact rational arithmetic over Q prescribes: trunc / floor / ceil / "
-              "round-half-even of c*p/q, comparison of the two values in seconds, and a sum / difference whose value in seconds is "
-              "the sum / difference of the operands, the truncated quotient of the two values, the exact remainder, c*s ticks for a "
-              "product with a tick count, the truncated quotient and the exact remainder of a division by a tick count. The members "
-              "listed in coverage.correspondence_only (the named aliases, zero/min/max) and every operation on floating-point representations are compared "
-              "differentially only. The model is tied to the current source on every run by running model, implementation, Lean "
-              "spec and libstdc++ on the same inputs under ASan/UBSan: all 100 ordered period pairs x all counts in [-2000, 2000] "
-              "for the four casts (int64), boundary values around 2^31 and 2^62, int32 and mixed representations, periods not in "
-              "lowest terms, double representations bit for bit, and the same functions through time_point.")
+LEVEL_TEXT = ("Proved in Lean 4, for every pair of periods with positive numerator and denominator, to return (never an error: no "
+              "signed overflow, no division by zero, no constructor dropped from overload resolution) exactly the value that exact "
+              "rational arithmetic over Q prescribes: "
+              "(1) duration_cast and time_point_cast = trunc(c*p/q), on the representations int8..int64, uint8..uint32: for EVERY "
+              "count whose exact result is representable when the conversion factor CF has numerator 1 or denominator 1 (three of "
+              "the four duration_cast_impl bodies: every cast among nano..days) or when (To::rep max + 2) * CF::den fits intmax_t "
+              "(e.g. every target of at most 32 bits with CF::den < 2^31); in general exactly when c * CF::num is a value of "
+              "intmax_t (durationCast_exact_iff), which follows from (|result| + 1) * CF::den <= intmax max; the remaining inputs "
+              "(result representable, c * CF::num not) are undefined behaviour of the expression [time.duration.cast] prescribes - "
+              "known finding F-C12-cast-intermediate-overflow with a proved counterexample. "
+              "(2) floor and ceil (duration and time_point) = floor / ceil of c*p/q for every count whose exact result is "
+              "representable, given the two products the code forms: c * CF::num in intmax_t and the argument in the common type "
+              "of the comparison (signed 32..64-bit representations); when that common representation is 32 bits wide the second "
+              "can fail although the result fits: known finding F-C12-rounding-compare-narrow-common-type with proved "
+              "counterexamples. round (nearest, ties to even) under the hypothesis that every intermediate is representable "
+              "(RoundIn, eleven conjuncts). "
+              "(3) the conversion to the common type (converting constructors of duration and time_point, common_type = gcd of "
+              "numerators / lcm of denominators), == != < <= > >= of durations and of time_points, + - / % of two durations, "
+              "duration * rep, rep * duration, duration / rep, duration % rep, time_point + duration, duration + time_point, "
+              "time_point - duration, time_point - time_point, abs, unary plus: signed 32..64-bit representations, operands "
+              "representable in the common type, exact result representable; unary minus and += -= *= ++ -- (duration and "
+              "time_point) also on int8/int16/uint8/uint16/uint32; /= %=. "
+              "(4) zero / min / max of duration and time_point are 0 and the least / greatest value of the representation; the ten "
+              "named aliases nanoseconds..years have the periods of [time.syn] and signed representations of at least the required "
+              "width (complete check). "
+              "Every operation on floating-point representations, and floor / ceil / round / the binary operators on int16 and "
+              "uint32 representations, are compared differentially only. The model is tied to the current source on every run "
+              "by running model, implementation, Lean spec and libstdc++ on the same inputs under ASan/UBSan: all 100 ordered "
+              "period pairs x all counts in [-2000, 2000] for the four casts (int64), boundary values around 2^31 and 2^62, int32, "
+              "int16, uint32 and mixed representations, periods not in lowest terms, double representations bit for bit, the same "
+              "functions through time_point, and single inputs of the two finding classes.")
 LEVEL_NOTE = ("Trusted: Lean kernel + propext/Classical.choice/Quot.sound; the hand model's fidelity outside the explored inputs "
-              "(templates are modelled at the value level: a duration type is (representation, period)); the C14 gcd/lcm model; "
-              "g++-12/ASan/UBSan; libstdc++ std::chrono as oracle for spec validation. The hypotheses of the theorems are decidable "
-              "predicates (RepOk, PerOk, DivOk, CommonOk, CastIn, PairIn, RoundIn, ScalarTyOk, MulIn, DivIn) that the generator evaluates with exact integers; "
-              "narrower or unsigned representations are outside the theorems and the exploration. Floating-point "
-              "representations have no theorem (coverage.unproved_observed). A time_point is modelled as its time_since_epoch(); the "
-              "free functions of [time.duration.nonmember] / [time.point.nonmember] were added to tetl by two fix commits (fixed "
-              "findings); if one of them is not declared the harness prints `missing`, which is a violation. "
-              "DEVIATION from the property text ('every tick count whose exact result is representable'): the theorems cover "
-              "the tick counts for which every INTERMEDIATE of the code is representable (c*CF::num in intmax_t; for floor/ceil "
-              "also the operands of the comparison and cast +/- 1; for round the eleven conjuncts of RoundIn) - that is the "
-              "UB-free domain of the code as written (and of libstdc++); an input whose exact result is representable only "
-              "through 128-bit intermediates, e.g. duration_cast<duration<i64, ratio<1,3>>>(duration<i64, ratio<5,7>>{2^62}), "
-              "is outside every theorem and outside the generator (which evaluates the same predicates).")
+              "(templates are modelled at the value level: a duration type is (representation, period); a time_point is its "
+              "time_since_epoch(), and tpCast/tpFloor/.../tpEq... of the model are by definition the duration functions the source "
+              "forwards to); the C14 gcd/lcm model; g++-12/ASan/UBSan; libstdc++ std::chrono as oracle for spec validation. The "
+              "hypotheses of the theorems are decidable predicates (RepOk, Builtin, PerOk, DivOk, CommonOk, CastTyOkB, CastIn, "
+              "PairIn, RoundIn, ScalarTyOk, MulIn, DivIn) that the generator evaluates with exact integers. "
+              "DEVIATION from the property text ('every tick count whose exact result is representable'), now exact: "
+              "duration_cast meets the wording except on the class {CF::num != 1, CF::den != 1, c * CF::num outside intmax_t} "
+              "(example: duration_cast<duration<int64, ratio<1,3>>>(duration<int64, ratio<5,7>>{2^60}); the review's example 2^62 "
+              "has a non-representable result); [time.duration.cast]/2 prescribes that expression, libstdc++ has the same undefined "
+              "behaviour, so the class is a known finding, not repaired. floor/ceil need in addition the argument in the common "
+              "type of their comparison; for int64 x int64 that product equals c * CF::num for periods in lowest terms (not proved "
+              "in general: the generator checks both), for 32-bit common representations it is the second known finding (libstdc++ "
+              "returns the same off-by-one values; the std column is masked with ns=1 there because the standard's Returns clause is "
+              "the reference). round keeps the every-intermediate hypothesis (low + 1 is formed even when low is returned). "
+              "uint64 representations are outside theorems and exploration (CR = uint64: modular arithmetic); int8/uint8/uint16 "
+              "are inside the cast / assignment theorems but not instantiated in the harness. Floating-point representations have "
+              "no theorem (coverage.unproved_observed). The free functions of [time.duration.nonmember] / [time.point.nonmember] "
+              "were added to tetl by two fix commits (fixed findings); if one of them is not declared the harness prints "
+              "`missing`, which is a violation.")
 # members modelled and compared on every run but without a Lean theorem yet
-CORRESPONDENCE_ONLY = ["named duration aliases (periods of nanoseconds … years)",
-                       "duration::zero/min/max, time_point::min/max",
-                       "time_point is not an object of the model: operator+=/-=/++/--, the comparisons, time_point_cast and "
-                       "floor/ceil/round(time_point) forward to the duration functions and are covered through the duration "
-                       "theorems; the forwarding itself is tied by the harness (R1/R3) only",
+CORRESPONDENCE_ONLY = ["floor / ceil / round, the binary operators through the common type, abs, duration (* / %) rep on int16 and "
+                       "uint32 representations (the theorems cover signed 32..64-bit representations there)",
                        "all operations on floating-point representations"]
 THEOREMS = {
-    "cast": ["C12.Props.durationCast_eq"], "tp_cast": ["C12.Props.durationCast_eq"],
-    "floor": ["C12.Props.floor_eq"], "tp_floor": ["C12.Props.floor_eq"],
-    "ceil": ["C12.Props.ceil_eq"], "tp_ceil": ["C12.Props.ceil_eq"],
-    "round": ["C12.Props.round_eq"], "tp_round": ["C12.Props.round_eq"],
+    "cast": ["C12.Props.durationCast_eq", "C12.Props.durationCast_eq_builtin", "C12.Props.durationCast_eq_of_result",
+             "C12.Props.durationCast_eq_narrow_target", "C12.Props.durationCast_exact_iff"],
+    "tp_cast": ["C12.Props.tpCast_eq", "C12.Props.tp_casts_forward", "C12.Props.durationCast_eq_of_result"],
+    "floor": ["C12.Props.floor_eq", "C12.Props.floor_eq_of_result"], "tp_floor": ["C12.Props.tpRounding_eq"],
+    "ceil": ["C12.Props.ceil_eq", "C12.Props.ceil_eq_of_result"], "tp_ceil": ["C12.Props.tpRounding_eq"],
+    "round": ["C12.Props.round_eq"], "tp_round": ["C12.Props.tpRounding_eq"],
     "add": ["C12.Props.add_exact"], "sub": ["C12.Props.sub_exact"],
     "cmp": ["C12.Props.eq_eq", "C12.Props.lt_eq", "C12.Props.cmp_derived_eq"],
-    "tp_cmp": ["C12.Props.eq_eq", "C12.Props.lt_eq", "C12.Props.cmp_derived_eq"],
+    "tp_cmp": ["C12.Props.tpCmp_eq"],
     "common": ["C12.Props.common_exact"], "ctype": ["C12.Props.commonPeriod_eq"],
-    "conv": ["C12.Props.common_exact", "C12.Props.convert_exact"], "tp_conv": ["C12.Props.convert_exact"], "pos": ["C12.Props.pos_eq"],
-    "abs": ["C12.Props.abs_eq"], "neg": ["C12.Props.neg_eq"],
-    "adda": ["C12.Props.addAssign_eq"], "tp_adda": ["C12.Props.addAssign_eq"], "inc": ["C12.Props.addAssign_eq"],
-    "suba": ["C12.Props.subAssign_eq"], "tp_suba": ["C12.Props.subAssign_eq"], "dec": ["C12.Props.subAssign_eq"],
-    "mula": ["C12.Props.mulAssign_eq"], "div": ["C12.Props.div_eq"], "mod": ["C12.Props.mod_exact"],
+    "conv": ["C12.Props.common_exact", "C12.Props.convert_exact", "C12.Props.convert_exact_builtin"],
+    "tp_conv": ["C12.Props.tpConvert_exact"], "pos": ["C12.Props.pos_eq"],
+    "abs": ["C12.Props.abs_eq"], "neg": ["C12.Props.neg_eq", "C12.Props.assign_builtin"],
+    "adda": ["C12.Props.addAssign_eq", "C12.Props.assign_builtin"], "tp_adda": ["C12.Props.tpAssign_eq"],
+    "inc": ["C12.Props.addAssign_eq", "C12.Props.assign_builtin"],
+    "suba": ["C12.Props.subAssign_eq", "C12.Props.assign_builtin"], "tp_suba": ["C12.Props.tpAssign_eq"],
+    "dec": ["C12.Props.subAssign_eq", "C12.Props.assign_builtin"], "tp_inc": ["C12.Props.tpAssign_eq"],
+    "mula": ["C12.Props.mulAssign_eq", "C12.Props.assign_builtin"], "div": ["C12.Props.div_eq"], "mod": ["C12.Props.mod_exact"],
     "diva": ["C12.Props.divAssign_eq"], "moda": ["C12.Props.modAssign_eq"], "modad": ["C12.Props.modAssign_eq"],
     "mul": ["C12.Props.mulRep_exact"], "divr": ["C12.Props.divRep_exact"], "modr": ["C12.Props.modRep_exact"],
     "tp_plus": ["C12.Props.tpPlus_exact"], "tp_minus": ["C12.Props.tpMinus_exact"], "tp_diff": ["C12.Props.tpDiff_exact"],
+    "limits": ["C12.Props.limits_eq"], "named": ["C12.Props.named_eq"],
 }
